@@ -24,6 +24,15 @@ CLAIMED = {
             "For every input up to the stated length over all 256 byte values and every pattern kind (str, char, [u8], [u8;N]; including "
             "empty and longer than the input) the solver shows prefix/suffix tests and stripping equal std, whitespace trimming equals "
             "trim_ascii*, and pattern trimming removes exactly the maximal run of whole repetitions.", "DESIGN.md#c05"),
+    "C07": (BMC + "std's Chars/CharIndices/char::encode_utf8/char::from_u32 under every front/back interleaving",
+            "encode_utf8 is compared with std for every char and from_u32 for every u32 (whole domains, exhaustive); chars/char_indices "
+            "and their reversed types are stepped against std with a symbolic front/back choice per step to exhaustion for every valid "
+            "UTF-8 string up to the stated length, comparing items, offsets, as_str() and produced-char validity.", "DESIGN.md#c07"),
+    "C09": (BMC + "std Range/RangeInclusive/RangeFrom iterators from every (start,end) pair",
+            "For each of the 13 Step types every (start,end) pair is symbolic (inverted, MIN/MAX, char pairs across the surrogate gap) and "
+            "K symbolic front/back steps (stepping on after exhaustion) are compared with std, for the forward and reversed iterator "
+            "types; the for_each!/eval! macro route is checked for ranges of up to 4 items. Bounded in the number of steps, not in the values.",
+            "DESIGN.md#c09"),
     "C04": (BMC + "a naive first/last-occurrence reference, all byte values, symbolic haystack and pattern",
             "For every haystack up to the stated byte length and every pattern (str, char, [u8], [u8;N]) up to the stated length, over "
             "the full byte alphabet, the SAT solver shows find/rfind/contains/find_skip/find_keep/rfind_skip/rfind_keep/split_once/"
